@@ -9,6 +9,9 @@ HERE=$(cd "$(dirname "$0")/.." && pwd)
 S=$(mktemp -d /tmp/verif-mutant-repo.XXXXXX)
  git -C /repo archive HEAD | tar -x -C $S || exit 2
 ( cd $S && git init -q . && git apply "$PATCH" ) || { echo "patch does not apply"; rm -rf $S; exit 2; }
+# cargo judges freshness by mtime and the alt target dirs are reused between scratch copies: files restored from the archive carry
+# the commit's (old) time stamp and would look unchanged after an earlier mutant modified them - make every source newer than any build
+find $S -type f \( -name '*.rs' -o -name 'Cargo.toml' -o -name 'Cargo.lock' \) -exec touch {} +
 cd "$HERE"
 for c in $P "$@"; do
   echo "=== VERIF_REPO=$S ./check $c   (with $PATCH applied)"
